@@ -30,7 +30,7 @@ Drift(pred, o) ==
          [] n = "settings" -> ~pred.err /\ ~o.err /\ Len(pred.ups) = Len(o.ups) /\ pred.ups # o.ups }
 
 Report(vs, dr) ==
-   /\ IF vs = {} THEN TRUE ELSE PrintT(<<"VIOL", l, vs>>)
+   /\ \A v \in vs : PrintT(<<"VIOL", l, {v}>>)     \* one short tuple per rule: TLC wraps long tuples over several lines
    /\ IF dr = {} THEN TRUE ELSE PrintT(<<"DRIFT", l, dr>>)
 
 Shape(r) ==
